@@ -9,3 +9,9 @@ package filepathext
 //@ func IsAbs
 //@   trusted
 //@   pure
+
+// ---- C08: a task dir that mentions one of the special directories ANYWHERE (in any template spelling) is left
+// alone when the dir of an include is joined in front of it
+//@ func isSpecialDir
+//@   site strings.Contains#1 requires arg0 == dir && arg1 == knownAbsDirs[$i]                                  [C08]
+//@   nosite strings.HasPrefix                                                                                  [C08]
